@@ -23,7 +23,8 @@ CLAIM = {
          "and 28 attribute names equal the JVMS tables, unknown tags are rejected, the catch-all attribute is last; (R20.3) constant_pool_count, "
          "the number of entries read, the index base and result table of the pool lookup the attribute guards call (partial evaluation over abstract pools: no pool / index outside / each non-Utf8 kind / Utf8), pool threading, and two-slot accounting for Long/Double; (R20.4) for each of "
          "the 15 structs and 75 variants the expanded _write, _read and _len perform exactly the DSL's item sequence (big-endian, buffer size = "
-         "width, count before elements, constants checked/discarded, fields bound to their own names) and the four public entry points call them; "
+         "width, count before elements, constants checked/discarded, fields bound to their own names) and the four public entry points call them and do nothing else (no loop, assignment, further call or "
+         "additional error between the caller and the expansion: read/write are exactly the generated _read/_write); "
          "(R20.5) in the macro definition the three generated functions enumerate the same metavariable sequence at the same repetition depth and "
          "the primitive arms agree on widths; (R20.6) top-level count widths equal those duke's class reader uses; (R20.7) the insn and flags "
          "constants equal the JVMS values.",
